@@ -68,3 +68,59 @@ func parallelCapacityProbe(res *common.Result, prop string) {
 		}
 	}
 }
+
+// freeNeverBusyProbe (C02, real time): "a free lock is never reported busy" and "a failed operation consumes
+// no capacity" while FAILING operations run in parallel: one goroutine is the only acquirer of a name
+// (TryLock, then Unlock with the key it got), two others keep sending Unlock with a key that holds nothing.
+// Every TryLock of the acquirer must be granted. The controlled scheduler cannot look inside the semaphore
+// calls of a failing Unlock; real goroutines can.
+func freeNeverBusyProbe(res *common.Result, prop string) {
+	dur := 1500 * time.Millisecond
+	if common.Thorough() {
+		dur = 15 * time.Second
+	}
+	for _, size := range []int32{1, 3} {
+		m, closer := lock.NewManager(16, time.Hour, time.Hour)
+		name := fmt.Sprintf("free-%d", size)
+		if ok, _ := m.TryLock(name, "seed", size); ok {
+			m.Unlock(name, "seed")
+		}
+		stop := time.Now().Add(dur)
+		var wg sync.WaitGroup
+		var tries, refused atomic.Int64
+		var first atomic.Value
+		for g := 0; g < 2; g++ {
+			wg.Add(1)
+			go func(g int) {
+				defer wg.Done()
+				for time.Now().Before(stop) {
+					m.Unlock(name, fmt.Sprintf("stale-%d", g))
+				}
+			}(g)
+		}
+		wg.Add(1)
+		go func() {
+			defer wg.Done()
+			for i := 0; time.Now().Before(stop); i++ {
+				ok, err := m.TryLock(name, "mine", size)
+				tries.Add(1)
+				if err != nil || !ok {
+					if refused.Add(1) == 1 {
+						first.Store(fmt.Sprintf("round %d: TryLock(%q, size %d) by the only acquirer answered (%v, %v) while nobody held the lock", i, name, size, ok, err))
+					}
+					continue
+				}
+				m.Unlock(name, "mine")
+			}
+		}()
+		wg.Wait()
+		closer()
+		res.CountN(fmt.Sprintf("free-never-busy-probe:trylocks:size=%d", size), int(tries.Load()))
+		res.Eval(fmt.Sprintf("free-never-busy-probe|size=%d", size), tries.Load() > 0)
+		if refused.Load() > 0 {
+			res.Find(common.Finding{Kind: "violation", Property: prop, Signature: "conc:nonlinearizable:free-lock-busy",
+				What:   fmt.Sprintf("one goroutine is the only acquirer of %q (size %d) while two others send Unlock with keys that hold nothing: %d of its %d TryLocks were refused although the lock was free; first: %v", name, size, refused.Load(), tries.Load(), first.Load()),
+				Replay: map[string]any{"program": "A: loop { TryLock(name, mine); Unlock(name, mine) }  B, C: loop { Unlock(name, stale) } on lock.NewManager(16, 1h, 1h), real goroutines", "size": size, "trylocks": tries.Load(), "refused": refused.Load(), "first": fmt.Sprint(first.Load())}})
+		}
+	}
+}
